@@ -125,9 +125,12 @@ class ChunkedTransferReader(object):
                 raise ProtocolError(
                     'Invalid trailer: {0}'.format(error)) from error
 
+            if not trailer_data.endswith(b'\n'):
+                raise NetworkError('Connection closed.')
+
             trailer_data_list.append(trailer_data)
 
-            if not trailer_data.strip():
+            if trailer_data in (b'\r\n', b'\n'):
                 break
 
         return b''.join(trailer_data_list)
